@@ -117,7 +117,7 @@ def h_token_twice(ctx, n1, n2):
     d2 = [ctx.int("b_%d" % i, 48, 57) for i in range(n2)]
     env = E.AndroidYowsupEnv()
     for k_, v in list(vars(E.AndroidYowsupEnv).items()) + list(vars(E.AndroidYowsupEnv.__mro__[1]).items()):
-        if isinstance(v, dict) and not k_.startswith("__"):
+        if isinstance(v, dict) and not k_.startswith("__") and "ENVS" not in k_:          # (not the registry of environments)
             v.clear()                      # class-level containers do not survive from one explored path to the next
     if H.sym(ctx):
         E.hashlib, E.base64 = M.M_hashlib, M.M_base64
